@@ -8,14 +8,11 @@ CONSTANTS
   Decs <- DecsSleep
   BFaults <- BFaultsNone
   Ras <- RasNone
-  Modes = {"call", "exec"}
+  Modes = {"exec"}
   RunGaps <- GapsNone
   NRuns = 2
-  Configs <- ConfigsC01
-  RecordHist = FALSE
+  Configs <- ConfigsC01Small
+  RecordHist = TRUE
 INVARIANT NoViolation
-INVARIANT AttemptsBounded
-INVARIANT InvokeWithinDeadline
-INVARIANT SleepWithinRemaining
-INVARIANT DeliveriesRelated
+INVARIANT ExportBehaviours
 CHECK_DEADLOCK FALSE
